@@ -12,6 +12,7 @@ import (
 	"github.com/gofiber/utils/v2"
 	"github.com/tinylib/msgp/msgp"
 	"github.com/valyala/bytebufferpool"
+	"github.com/valyala/fasthttp"
 )
 
 // Pool for redirection
@@ -316,7 +317,9 @@ func (r *Redirect) parseAndClearFlashMessages() {
 		return
 	}
 
-	r.c.ClearCookie(FlashCookieName)
+	// expire the consumed cookie for the path it was issued for ("/"): an expiry without a Path attribute is
+	// applied by the client to the default path of this request, which leaves the cookie in place below a directory
+	r.c.Cookie(&Cookie{Name: FlashCookieName, Path: "/", Expires: fasthttp.CookieExpireDelete})
 }
 
 // processFlashMessages is a helper function to process flash messages and old input data
